@@ -535,6 +535,12 @@ class SReal:
     def __hash__(a):
         return 0
 
+    def __bool__(a):
+        # truthiness of a number (`if permeate_pressure:`) is a branch on `!= 0`, never silently True
+        if Ctx.cur is None:
+            raise Unsupported("truth value of a symbolic number outside exploration")
+        return Ctx.cur.branch(a.t != 0)
+
     # realisation is never silent ----------------------------------------------------------------
     def __float__(a):
         raise Unsupported("float() of a symbolic value")
